@@ -379,6 +379,8 @@ def reader_leaves(body, crates):
                         order, extra = "le", 2
                     elif ga and ga[0] == "zvt_builder::encoding::BigEndian" and ga[1] == "u16":
                         order, extra = "be", 2
+                    elif ga and ga[0] in ("zvt_builder::encoding::BigEndian", "zvt_builder::encoding::Default") and ga[1] == "u8":
+                        extra = max(extra, 1)              # one byte: no byte order
                 elif c[1].endswith("<impl [T]>::get") and extra == 0 and not (len(c[2]) == 2 and c[2][1] == ("const", 0)):
                     extra = 1
             # bytes named by position (slice patterns): the value uses input bytes 1..=k
